@@ -35,6 +35,7 @@ var (
 	fPackTimer = flag.Int("pack-timer", 50, "child: packer TimerInterval ms")
 	fSrcChans  = flag.Int("src-channels", 4, "child: source channel num")
 	fDebugLog  = flag.Bool("debug-log", false, "child: log level debug")
+	fPackMaxKB = flag.Int("pack-maxkb", 0, "child: packer MaxMsgSize in KB")
 )
 
 func killSelf() {
@@ -67,7 +68,7 @@ func childMain() {
 			return sysboot.WrapStore(f, observer, killSelf)
 		},
 		SourceChannels: *fSrcChans,
-		Packer:         msgpacker.PackerConfig{MaxCount: *fPackCount, TimerInterval: *fPackTimer},
+		Packer:         msgpacker.PackerConfig{MaxCount: *fPackCount, TimerInterval: *fPackTimer, MaxMsgSize: *fPackMaxKB},
 	})
 	if err != nil {
 		fmt.Println("CHILD-FAILED", err)
